@@ -729,6 +729,55 @@ func (w *world) open(x *cconn, b []byte) cookieJ {
 	return cj
 }
 
+// burst: m complete requests whose End of Message records are written at the same moment
+// from m goroutines, so that the handlers' Export / Build steps interleave (the model's
+// Export(c), Export(d), Build(c) orders, which a client cannot impose but can make likely)
+func (w *world) burst(bi, m int, out *vio.Out) {
+	xs := []*cconn{}
+	for i := 1; i <= m; i++ {
+		w.gid++
+		x := &cconn{c: i, gid: w.gid, done: make(chan struct{}), k0: w.pv.cur()}
+		if err, ok := waitCh(w.dialAsync(x), w.d); !ok || err != nil {
+			continue
+		}
+		x.dialed = true
+		cs := x.tc.ConnectionState()
+		x.c2s, _ = cs.ExportKeyingMaterial("EXPORTER-network-time-security", []byte{0, 0, 0, 0x0f, 0}, 32)
+		x.s2c, _ = cs.ExportKeyingMaterial("EXPORTER-network-time-security", []byte{0, 0, 0, 0x0f, 1}, 32)
+		w.keyOwner[string(x.c2s)], w.keyGid[string(x.c2s)] = "c2s", x.gid
+		w.keyOwner[string(x.s2c)], w.keyGid[string(x.s2c)] = "s2c", x.gid
+		go x.readLoop()
+		x.tc.Write(wire(append(words("np", false), words("a15", false)...)))
+		xs = append(xs, x)
+	}
+	start := make(chan struct{})
+	var wg sync.WaitGroup
+	for _, x := range xs {
+		wg.Add(1)
+		go func() {
+			defer wg.Done()
+			<-start
+			x.tc.Write(wire(words("eom", false)))
+		}()
+	}
+	close(start)
+	wg.Wait()
+	for _, x := range xs {
+		if _, ok := waitCh(x.done, w.d); ok {
+			x.finished = true
+		}
+	}
+	k1 := w.pv.cur()
+	for _, x := range xs {
+		r := rec{Ev: "conn", Beh: bi, C: x.c, Gid: x.gid, Acc: "good", Want: "success", End: "open", WantNck: 8,
+			Shape: []string{}, Cookies: []cookieJ{}, Got: "unobserved", Closed: "unobserved", K0: x.k0, K1: k1, Note: "burst; "}
+		data, rerr := x.snapshot()
+		w.judge(&r, x, data, rerr)
+		x.tc.Close()
+		out.Emit(r)
+	}
+}
+
 func TestX05(t *testing.T) {
 	cases := vio.ReadCases[beh](t)
 	out := vio.Create(t)
@@ -767,6 +816,13 @@ func TestX05(t *testing.T) {
 	for bi, b := range cases {
 		w.run(bi, b, out)
 	}
-	out.Emit(map[string]any{"ev": "meta", "rotation": pv.canRot, "handler_visible": w.sawH, "behaviours": len(cases)})
+	rounds, m := 40, 6
+	if vio.Thorough() {
+		rounds = 400
+	}
+	for r := 0; r < rounds; r++ {
+		w.burst(len(cases)+r, m, out)
+	}
+	out.Emit(map[string]any{"ev": "meta", "bursts": rounds, "rotation": pv.canRot, "handler_visible": w.sawH, "behaviours": len(cases)})
 	fmt.Printf("X05 behaviours=%d records=%d rotation=%v handler_visible=%v wall=%v\n", len(cases), out.N, pv.canRot, w.sawH, time.Since(t0).Round(time.Millisecond))
 }
